@@ -97,11 +97,21 @@ fn find_operator(expr: &str, operators: &[char]) -> Option<usize> {
     // Previous non-whitespace character: a sign at the start or directly after another
     // operator belongs to a literal ("-3", "x * -1") and is not a binary operator
     let mut prev: Option<char> = None;
+    // Inside a string literal (opened by this quote character) nothing is an operator
+    let mut quote: Option<char> = None;
 
     // `char_indices` yields byte offsets: the callers slice `expr` at the returned position,
     // and a character count is not a valid slice index once a multi-byte character precedes it.
     for (i, ch) in expr.char_indices() {
+        if let Some(q) = quote {
+            if ch == q {
+                quote = None;
+            }
+            prev = Some(ch);
+            continue;
+        }
         match ch {
+            '"' | '\'' => quote = Some(ch),
             '(' => paren_depth += 1,
             ')' => paren_depth -= 1,
             _ if paren_depth == 0 && operators.contains(&ch) => {
